@@ -1,3 +1,202 @@
-//! C05 — not built yet.
-pub const BUILT: bool = false;
-pub fn run(_rep: &mut vx::Report) {}
+//! C05 — encryption round-trips for every strength, writer configuration and password.
+//!
+//! One execution = one document program written twice by the library — without encryption
+//! and with it — under one `WriterConfig`. Strength (4) × configuration (xref stream ×
+//! object streams × compression = 8) is enumerated in FULL; on top of every such cell the
+//! secondary dimensions (password pair, permission set, content variant, RNG seed) are
+//! explored with a deviation bound (DEV(1) quick, DEV(2) thorough).
+//!
+//! Oracle per execution:
+//!  * the encrypted file is recognised as encrypted; without a password (and a non-empty user
+//!    password) it stays locked and hands out no objects;
+//!  * after unlocking with the user password and, separately, with the owner password through
+//!    `PdfReader`, the object graph reachable from /Root and /Info (every string, every
+//!    decoded stream, every name/number), the extracted page text and the metadata record
+//!    equal those of the plaintext build, and the permission bits equal the requested ones;
+//!  * passwords that are neither (the reference decides that) are refused;
+//!  * the reference reader (`refpdf::crypto::unlock`) decrypts the same file to the same
+//!    object graph with both passwords (C06 reverse direction).
+//! A configuration whose *plaintext* build the library cannot read back is outside this
+//! property (C02/C03); such cells are counted as skipped.
+use crate::util::enc::{self, Src};
+use crate::util::encdoc::*;
+use oxidize_pdf::document::DocumentEncryption;
+use refpdf::crypto as rc;
+use refpdf::syntax::Obj;
+use serde_json::json;
+use std::sync::atomic::{AtomicU64, Ordering};
+use vx::{Ctx, Explore, Report};
+
+pub const BUILT: bool = true;
+
+/// Library side of the oracle.
+pub fn check_library(enc_bytes: &[u8], cs: &Case) -> Findings {
+    let mut out: Findings = Vec::new();
+    let tag = &cs.tag;
+    // recognised as encrypted, locked without password
+    match enc::lib_open(enc_bytes, None) {
+        Ok(l) => {
+            if !l.encrypted {
+                out.push(("written-file-not-recognised-as-encrypted".into(), format!("{tag}: is_encrypted() is false")));
+                return out;
+            }
+            if !cs.user.is_empty() {
+                if l.unlocked_on_open {
+                    out.push(("opens-without-password".into(), format!("{tag}: unlocked right after opening although the user password is {:?}", cs.user)));
+                }
+                if let Some(Obj::Ref(n, g)) = &l.info {
+                    if let Ok(o) = l.get(*n, *g) {
+                        out.push(("locked-reader-hands-out-objects".into(), format!("{tag}: Info object readable while locked: {o:?}")));
+                    }
+                }
+            }
+        }
+        Err(e) => {
+            out.push(("encrypted-file-cannot-be-opened".into(), format!("{tag}: {e}")));
+            return out;
+        }
+    }
+    for (pw, role) in [(cs.user, "user"), (cs.owner, "owner")] {
+        let l = match enc::lib_open(enc_bytes, Some(pw)) {
+            Ok(l) => l,
+            Err(e) => {
+                out.push((format!("{role}-password-refused"), format!("{tag}: {role} password {pw:?}: {e}")));
+                continue;
+            }
+        };
+        if l.perms != Some(cs.perms) {
+            out.push(("permissions-differ".into(), format!("{tag}: requested {:#010x}, read back {:?}", cs.perms, l.perms.map(|p| format!("{p:#010x}")))));
+        }
+        let (d, _st) = enc::graph_diff(cs.base_lib, &l, &[("Root", cs.base_lib.root.clone(), l.root.clone()), ("Info", cs.base_lib.info.clone(), l.info.clone())], &enc::ignore_volatile, 8);
+        if !d.is_empty() {
+            let kinds: std::collections::BTreeSet<&str> = d.iter().map(|x| x.kind).collect();
+            out.push((format!("content-differs-after-{role}-unlock/{}", kinds.into_iter().collect::<Vec<_>>().join("+")), format!("{tag}: {}", enc::show_diffs(&d))));
+        }
+        match enc::lib_text_and_metadata(&l) {
+            Ok((t, m)) => {
+                if t != cs.base.text {
+                    out.push((format!("text-differs-after-{role}-unlock"), format!("{tag}: want {:?} got {:?}", cs.base.text, t)));
+                }
+                if m != cs.base.meta {
+                    out.push((format!("metadata-differs-after-{role}-unlock"), format!("{tag}: want {} got {}", cs.base.meta, m)));
+                }
+            }
+            Err(e) if e.contains("Filter Crypt not yet implemented") => {
+                // known signature: the writer tags encrypted streams that have no /Filter with /Filter /Crypt,
+                // and the library's own stream decoder does not know that filter
+                out.push(("own-reader-cannot-decode-the-Crypt-filter-entry-its-writer-adds".into(), format!("{tag} ({role} password): {e}")))
+            }
+            Err(e) => out.push((format!("text-or-metadata-unreadable-after-{role}-unlock"), format!("{tag}: {e}"))),
+        }
+    }
+    // other passwords are refused (the reference decides which candidates are really "other")
+    let info = refpdf::file::PdfFile::parse(enc_bytes).ok().and_then(|f| rc::read_enc_info(&f).ok());
+    let candidates = [String::new(), "wrong".to_string(), format!("#{}", cs.user), format!("#{}", cs.owner), format!("{}x", cs.user), cs.user.to_uppercase(), " ".to_string()];
+    for w in candidates.iter() {
+        if w == cs.user || w == cs.owner {
+            continue;
+        }
+        if let Some(i) = &info {
+            if rc::authenticate(i, w.as_bytes()).which().is_some() {
+                continue; // equivalent password by the algorithm itself (e.g. same first 32 bytes)
+            }
+        }
+        match enc::lib_accepts(enc_bytes, w) {
+            Ok(false) | Err(_) => {}
+            Ok(true) => out.push(("wrong-password-accepted".into(), format!("{tag}: password {w:?} unlocks the file"))),
+        }
+    }
+    out
+}
+
+pub fn run(rep: &mut Report) {
+    let thorough = rep.tier.is_thorough();
+    rep.rule(
+        "one execution = (strength, xref-stream, object-streams, compression) in FULL with at most k non-default choices among \
+         (password pair, permission set, content variant, RNG seed); non-trivial = the plaintext build of the cell is readable, so the \
+         encrypted build was written and compared; distinct = distinct parameter tuple",
+    );
+    rep.assume("refpdf::crypto decrypts correctly (bound to qpdf/pypdf through 28 fixtures) and refpdf::file reads the library's plaintext output");
+    rep.assume("the plaintext build of the same program, as the library reads it, is the definition of 'the unencrypted document'; /ModDate, /CreationDate (time of the build), the XMP date values and the writer's own /oxidize-pdf-features fingerprint (which records that encryption is on) are not compared");
+    rep.assume("passwords reach the reference as the UTF-8 bytes of the Rust string (what the library hashes); the PDFDocEncoding question belongs to C23/C06");
+    rep.assume("a password that the standard's own algorithm cannot tell from the real one (same first 32 bytes for R2-R4) is not a 'wrong' password");
+    let skipped = AtomicU64::new(0);
+    let compared = AtomicU64::new(0);
+    let n_pw = if thorough { 8 } else { 6 };
+    let n_seed = if thorough { 5 } else { 3 };
+    rep.explore("roundtrip", Explore::dev(if thorough { 2 } else { 1 }), |c: &mut Ctx| {
+        let s = c.choose("strength", 4);
+        let xs = c.flag("xref_stream");
+        let os = c.flag("object_streams");
+        let comp = !c.flag("no_compression");
+        // the library takes seconds to write and to read a file with object streams AND a
+        // cross-reference stream; those two configurations keep their place in the FULL product but
+        // get the default secondary choices only (quick) or shortened menus (thorough)
+        let slow = xs && os;
+        let (m_pw, m_p, m_c, m_s) = match (slow, thorough) {
+            (true, false) => (1, 1, 1, 1),
+            (true, true) => (3, 3, 3, 2),
+            (false, _) => (n_pw, 10, 3, n_seed),
+        };
+        let pwk = c.choose_dev("passwords", m_pw);
+        let pk = c.choose_dev("permissions", m_p);
+        let ck = c.choose_dev("content", m_c);
+        let seed = [1u64, 2, 3, 0xFFFF_FFFF_FFFF_FFF0, 77][c.choose_dev("seed", m_s)];
+        c.input(vx::h64(&(s, xs, os, comp, pwk, pk, ck, seed)));
+        let cfg = config(xs, os, comp);
+        let (user, owner) = password_pair(pwk);
+        let perms = permission_set(pk);
+        let tag = format!("{} xref_stream={xs} object_streams={os} compress={comp} passwords={} permissions={:#010x} content={} seed={seed}", STRENGTHS[s].1, PASSWORD_NAMES[pwk], perms.bits(), CONTENT_NAMES[ck]);
+        c.sample(json!({"case": tag}));
+        let base = match baseline(ck, &cfg) {
+            Ok(b) => b,
+            Err(e) => {
+                // outside C05: the configuration does not round-trip even without encryption
+                skipped.fetch_add(1, Ordering::Relaxed);
+                c.outcome(vx::h64(&("skipped", vx::one_line(&e, 60))));
+                return;
+            }
+        };
+        c.nontrivial();
+        compared.fetch_add(1, Ordering::Relaxed);
+        let de = DocumentEncryption::new(user.clone(), owner.clone(), perms, STRENGTHS[s].0);
+        let ebytes = match write_document(ck, &cfg, Some((&de, seed))) {
+            Ok(b) => b,
+            Err(e) => {
+                c.fail("C05/encrypted-build-fails", format!("{tag}: {e}"));
+                return;
+            }
+        };
+        if xs && xref_stream_trailer_lacks_encrypt(&ebytes) {
+            // the known defect; everything downstream (not encrypted, ciphertext, any password) follows from it.
+            // The library-side confirmation is skipped in the quick tier for the object-stream
+            // configurations, where opening a file costs seconds.
+            let confirmed = if os && !thorough { true } else { matches!(enc::lib_open(&ebytes, None), Ok(l) if !l.encrypted) };
+            if confirmed {
+                c.fail("C05/xref-stream-trailer-lacks-Encrypt-and-ID", format!("{tag}: the cross-reference stream dictionary has neither /Encrypt nor /ID; the file reads back as not encrypted"));
+                c.outcome(1);
+                return;
+            }
+        }
+        let base_lib = match base.open() {
+            Ok(l) => l,
+            Err(e) => {
+                c.fail("C05/plaintext-build-no-longer-readable", format!("{tag}: {e}"));
+                return;
+            }
+        };
+        let cs = Case { tag: tag.clone(), user: &user, owner: &owner, perms: perms.bits(), base: &base, base_lib: &base_lib };
+        let mut oh = 0u64;
+        for (k, d) in check_library(&ebytes, &cs) {
+            oh = vx::hmix(oh, vx::h64(&k));
+            c.fail(format!("C05/{k}"), d);
+        }
+        for (k, d) in check_reference(&ebytes, &cs) {
+            oh = vx::hmix(oh, vx::h64(&k));
+            c.fail(format!("C05/{k}"), d);
+        }
+        c.outcome(oh);
+    });
+    rep.note("cells_compared", json!(compared.load(Ordering::Relaxed)));
+    rep.note("cells_skipped_plaintext_build_unreadable", json!(skipped.load(Ordering::Relaxed)));
+}
